@@ -626,6 +626,9 @@ func main() {
 		}
 		r := rand.New(rand.NewSource(vh.Mix(*seed, "route", i)))
 		var o *caseOut
+		if *prop == "C20" && i%5 != 4 {
+			continue // C20 uses this engine only for the stream cases (messages judged after later hand-offs)
+		}
 		if i%5 == 4 {
 			o = runStream(r, met, rep)
 		} else {
@@ -645,6 +648,10 @@ func main() {
 			b, _ := json.MarshalIndent(map[string]any{"property": *prop, "family": "route", "index": i, "seed": *seed, "violations": o.vios, "case": o.sample}, "", " ")
 			_ = os.WriteFile(path, b, 0o644)
 			for _, v := range o.vios {
+				if !strings.Contains(v.Prop, *prop) {
+					continue
+				}
+				v.Prop = *prop
 				v.Replay = path
 				rep.Violate(v)
 				if *replay != "" {
